@@ -344,18 +344,56 @@ def check_operators(ctx, rep):
     # greater_or_less: '=' selects the second variant
     gl = body_of(prog, F + "lexer::Lexer::greater_or_less")
     if gl is not None:
+        from rules import pathcond as PC
+
         n += 1
-        ok = False
-        for bi, t in gl.calls():
-            if strip_generics(mir.callee_name(t) or "").endswith("LexerToken::make"):
-                v = repr(G.describe(gl, t["args"][0]))
-                gs = [repr(g) for g in G.guards_at(gl, bi)]
-                if v.endswith(".1") and any("Eq const 61" in g for g in gs):
-                    ok = True
+        # which of the two token variants a make() call receives: field 0 / 1 of the tuple parameter, or the 1st / 2nd of two
+        # separate parameters; the argument may be a local chosen earlier on the path
+        make_blocks = {bi: t for bi, t in gl.calls() if strip_generics(mir.callee_name(t) or "").endswith("LexerToken::make")}
+        all_paths = PC.enumerate_paths(gl, lambda x: x in make_blocks)
+
+        def variant_of(r):
+            m = re.search(r"^_2\.(\d)$", r)
+            if m:
+                return int(m.group(1))
+            if gl.arg_count >= 3 and r in ("_2", "_3"):
+                return int(r[1:]) - 2
+            return None
+
+        paths = []
+        makes = {}
+        for p in all_paths:
+            t = make_blocks[p[0]]
+            r = repr(G.describe(gl, t["args"][0]))
+            v = variant_of(r)
+            if v is None:
+                pl = op_place(t["args"][0])
+                if pl is not None and not pl["p"] and pl["l"] in p[3]:
+                    v = variant_of(p[3][pl["l"]])
+            if v is not None:
+                paths.append((p[0], p[1], p[2], v))
+                makes[(p[0], v)] = v
+        ok = bool(paths) and {p[3] for p in paths} == {0, 1} and len(paths) == len(all_paths)
+        why = "the two variants are not both used / not identified (%s)" % sorted({p[3] for p in paths})
         if ok:
-            rep.ok("T-OPS", "greater_or_less:equals-selects-second", gl.where(), "the variant with '=' is chosen exactly when the next byte is '='")
+            atoms = PC.atoms_of(paths)
+            EQ = [a for a in atoms if a.startswith("eq(") and re.search(r"const 61\b", a) and ("safe_peek" in a or " as Some.0" in a)]
+            EQ += [a for a in atoms if a.startswith("eq(") and "safe_peek" in a and "Some(const 61)" in a]
+            SOME = [a for a in atoms if a.startswith("some(") and "safe_peek" in a]
+            if not EQ:
+                ok, why = False, "no test of the peeked byte against '='"
+            else:
+                is_eq = lambda asg: all(asg.get(a) for a in EQ) and all(asg.get(a2, True) for a2 in SOME)  # noqa: E731
+                second = [p for p in paths if p[3] == 1]
+                first = [p for p in paths if p[3] == 0]
+                o1, c1 = PC.entails(second, is_eq, atoms)
+                o2, c2 = PC.entails(first, lambda asg: not is_eq(asg), atoms)
+                ok = o1 and o2 and bool(second) and bool(first)
+                why = "the '=' variant is chosen under %s" % c1 if not o1 else "the plain variant is chosen under %s" % c2
+        if ok:
+            rep.ok("T-OPS", "greater_or_less:equals-selects-second", gl.where(), "the variant with '=' is chosen exactly when the next byte is '=' (truth table)")
         else:
-            rep.bad("T-OPS", "T-OPS:greater_or_less:equals-selects-second", gl.where(), "greater_or_less does not pick the second variant under `next == '='`")
+            rep.bad("T-OPS", "T-OPS:greater_or_less:equals-selects-second", gl.where(), "greater_or_less does not pick the second variant exactly under `next == '='`: %s" % why)
     return n
 
 
